@@ -78,6 +78,9 @@ M = [
  ('C18-e', 'C18', 'core/matcher.py', "    '\"' : '\"',\n}", "}", 1),
  ('C18-f', 'C18', 'core/matcher.py', "    elif text and ord(text[0]) >= ord('0') and ord(text[0]) <= ord('9'):", "    elif ord(text[0]) >= ord('0') and ord(text[0]) <= ord('9'):", 1),
  ('C18-g', 'C18', 'core/matcher.py', "        try:\n            return EqMatcher(int(text))\n        except ValueError:", "        try:\n            return EqMatcher(int(text))\n        except TypeError:", 1),
+ ('C09-d', 'C09', 'backends/gdb_plugin/extract.py', "    message = extract_message(closure, object, False, new_id_is_actually_an_object)", "    message = extract_message(closure, object, True, new_id_is_actually_an_object)", 1),
+ ('C09-e', 'C09', 'backends/gdb_plugin/extract.py', "        # Client connection\n        new_id_is_actually_an_object = True", "        # Client connection\n        new_id_is_actually_an_object = False", 1),
+ ('C09-f', 'C09', 'backends/gdb_plugin/extract.py', "    return 'gdb_conn:' + hex(int(connection))", "    return 'gdb_conn:' + hex(int(connection) & 0xfff)", 1),
  ('C16-a', 'C16', 'frontends/tui/controller.py', 'if delta > 1.0:', 'if delta >= 1.0:', 1),
  ('C16-b', 'C16', 'frontends/tui/controller.py', "                ')')\n            self.last_shown_timestamp = None", "                ')')", 1),
  ('C06-a', 'C06', 'frontends/tui/controller.py', 'if self.current_connection is None or connection == self.current_connection:', 'if True:', 1),
